@@ -4,6 +4,7 @@ package main
 // reader.  Model: lean/EchoModel/C14.lean (serveAll).
 
 import (
+	"context"
 	"errors"
 	"fmt"
 	"io"
@@ -21,12 +22,18 @@ type c14Req struct {
 	Chunks      [][]byte `json:"chunks"`
 	Final       int      `json:"final"` // 1 = io.EOF, 2 = other error
 	EOFWithLast bool     `json:"eof_with_last"`
-	Reads       []int    `json:"reads"` // handler buffer sizes; it stops at the first error
+	Reads       []int    `json:"reads"`                // handler buffer sizes; it stops at the first error
+	Inner       bool     `json:"inner,omitempty"`      // goes to the route that carries a second BodyLimit instance
+	Close       bool     `json:"close,omitempty"`      // the handler closes the body before it returns
+	Nested      *c14Req  `json:"nested,omitempty"`     // served by the handler, on the same application, ...
+	NestAfter   int      `json:"nest_after,omitempty"` // ... before its read number NestAfter
 }
 
 type c14Case struct {
 	Limit    int64    `json:"limit"`
 	LimitStr string   `json:"limit_str"`
+	Inner    int64    `json:"inner,omitempty"` // limit of the second instance on the route /inner ("" = no such route)
+	InnerStr string   `json:"inner_str,omitempty"`
 	Reqs     []c14Req `json:"reqs"`
 }
 
@@ -98,31 +105,91 @@ func c14EncResps(l []c14Resp) string {
 	return strings.Join(parts, " ")
 }
 
+type c14State struct {
+	rq   *c14Req
+	seen []c14Resp
+	ran  bool
+	sub  func(*c14Req) // serves a nested request on the same application
+}
+
+type c14Key struct{}
+
+// c14Served is one request as it was served: the request, what the underlying reader answered,
+// what the handler saw, the status.
+type c14Served struct {
+	rq   *c14Req
+	log  []c14Resp
+	seen []c14Resp
+	ran  bool
+	code int
+}
+
 func c14Run(ci any) Result {
 	c := ci.(*c14Case)
 	e := echo.New()
-	var seen []c14Resp
-	ran := false
-	var reads []int
 	e.Use(middleware.BodyLimit(c.LimitStr))
-	e.POST("/", func(ctx echo.Context) error {
-		ran = true
+	h := func(ctx echo.Context) error {
+		st := ctx.Request().Context().Value(c14Key{}).(*c14State)
+		st.ran = true
 		body := ctx.Request().Body
-		for _, sz := range reads {
+		ret := error(nil)
+		for k, sz := range st.rq.Reads {
+			if st.rq.Nested != nil && k == st.rq.NestAfter {
+				st.sub(st.rq.Nested)
+			}
 			buf := make([]byte, sz)
 			n, err := body.Read(buf)
-			seen = append(seen, c14Resp{append([]byte(nil), buf[:n]...), c14ErrClass(err)})
+			st.seen = append(st.seen, c14Resp{append([]byte(nil), buf[:n]...), c14ErrClass(err)})
 			if err != nil {
 				if c14ErrClass(err) == 3 {
-					return err
+					ret = err
 				}
 				break
 			}
 		}
+		if st.rq.Nested != nil && st.rq.NestAfter >= len(st.rq.Reads) {
+			st.sub(st.rq.Nested)
+		}
+		if st.rq.Close {
+			body.Close() // a handler may close the body it was given
+		}
+		if ret != nil {
+			return ret
+		}
 		return ctx.NoContent(200)
-	})
-	ops := []string{wInt64(c.Limit), wInt(len(c.Reqs))}
-	obs := []string{wInt(len(c.Reqs))}
+	}
+	e.POST("/", h)
+	if c.InnerStr != "" {
+		e.POST("/inner", h, middleware.BodyLimit(c.InnerStr))
+	}
+	var served []c14Served
+	var serve func(rq *c14Req)
+	serve = func(rq *c14Req) {
+		var chunks [][]byte
+		for _, ch := range rq.Chunks {
+			chunks = append(chunks, append([]byte(nil), ch...))
+		}
+		rd := &c14Reader{chunks: chunks, final: rq.Final, eofWithLast: rq.EOFWithLast}
+		path := "/"
+		if rq.Inner && c.InnerStr != "" {
+			path = "/inner"
+		}
+		st := &c14State{rq: rq, sub: serve}
+		req := httptest.NewRequest(http.MethodPost, path, nil)
+		req = req.WithContext(context.WithValue(req.Context(), c14Key{}, st))
+		req.Body = rd
+		req.ContentLength = rq.Declared
+		rec := httptest.NewRecorder()
+		idx := len(served)
+		served = append(served, c14Served{rq: rq}) // pre-order: the outer request before the one nested in it
+		e.ServeHTTP(rec, req)
+		served[idx] = c14Served{rq: rq, log: rd.log, seen: st.seen, ran: st.ran, code: rec.Code}
+	}
+	for i := range c.Reqs {
+		serve(&c.Reqs[i])
+	}
+	ops := []string{wInt64(c.Limit), wInt(len(served))}
+	obs := []string{wInt(len(served))}
 	oracle := ""
 	fail := func(i int, msg string) {
 		if oracle == "" {
@@ -132,59 +199,75 @@ func c14Run(ci any) Result {
 	tags := []string{}
 	nontrivial := false
 	prevRead := false
-	for i, rq := range c.Reqs {
-		seen, ran, reads = nil, false, rq.Reads
-		var chunks [][]byte
+	for i, sv := range served {
+		rq := sv.rq
+		limit := c.Limit
+		if rq.Inner && c.InnerStr != "" {
+			ops = append(ops, "1", wInt64(c.Inner))
+			tags = append(tags, "two-instances")
+			if c.Inner < limit {
+				limit = c.Inner
+			}
+		} else {
+			ops = append(ops, "0")
+		}
+		if rq.Nested != nil {
+			tags = append(tags, "nested-request")
+		}
+		if rq.Close {
+			tags = append(tags, "handler-closes-body")
+		}
 		realLen := 0
 		for _, ch := range rq.Chunks {
-			chunks = append(chunks, append([]byte(nil), ch...))
 			realLen += len(ch)
 		}
-		rd := &c14Reader{chunks: chunks, final: rq.Final, eofWithLast: rq.EOFWithLast}
-		req := httptest.NewRequest(http.MethodPost, "/", nil)
-		req.Body = rd
-		req.ContentLength = rq.Declared
-		rec := httptest.NewRecorder()
-		e.ServeHTTP(rec, req)
-
-		ops = append(ops, wInt64(rq.Declared), c14EncResps(rd.log))
-		if !ran {
+		ops = append(ops, wInt64(rq.Declared), c14EncResps(sv.log))
+		if !sv.ran {
 			obs = append(obs, "0")
 		} else {
-			obs = append(obs, "1", c14EncResps(seen))
+			obs = append(obs, "1", c14EncResps(sv.seen))
 		}
 		// model-free oracle
-		if rq.Declared > c.Limit {
+		if rq.Declared > limit {
 			tags = append(tags, "declared-too-large")
-			if ran || rec.Code != http.StatusRequestEntityTooLarge {
-				fail(i, fmt.Sprintf("declared length %d > limit %d but handler ran=%v status=%d", rq.Declared, c.Limit, ran, rec.Code))
+			if sv.ran || sv.code != http.StatusRequestEntityTooLarge {
+				fail(i, fmt.Sprintf("declared length %d > limit %d but handler ran=%v status=%d", rq.Declared, limit, sv.ran, sv.code))
 			}
 			continue
 		}
-		if !ran {
-			fail(i, fmt.Sprintf("declared length %d <= limit %d but the handler did not run (status %d)", rq.Declared, c.Limit, rec.Code))
+		if !sv.ran {
+			fail(i, fmt.Sprintf("declared length %d <= limit %d but the handler did not run (status %d)", rq.Declared, limit, sv.code))
 			continue
 		}
 		cum := int64(0)
 		saw413 := false
-		for k, s := range seen {
+		for k, s := range sv.seen {
 			cum += int64(len(s.data))
 			if s.err == 3 {
 				saw413 = true
-				if cum <= c.Limit {
-					fail(i, fmt.Sprintf("read %d reported 413 although only %d <= %d bytes were delivered", k, cum, c.Limit))
+				if cum <= limit {
+					fail(i, fmt.Sprintf("read %d reported 413 although only %d <= %d bytes were delivered", k, cum, limit))
 				}
-			} else if cum > c.Limit {
-				fail(i, fmt.Sprintf("read %d: %d > %d bytes delivered without a 413 error (err class %d)", k, cum, c.Limit, s.err))
+			} else if cum > limit {
+				fail(i, fmt.Sprintf("read %d: %d > %d bytes delivered without a 413 error (err class %d)", k, cum, limit, s.err))
 			}
 		}
-		if int64(realLen) <= c.Limit {
+		// whatever the length: the handler's reads are the underlying reader's answers, byte for byte,
+		// only the error of the reads past the limit is replaced
+		if len(sv.seen) != len(sv.log) {
+			fail(i, fmt.Sprintf("the handler made %d reads but the request's own body reader served %d", len(sv.seen), len(sv.log)))
+		} else {
+			for k := range sv.seen {
+				if string(sv.seen[k].data) != string(sv.log[k].data) {
+					fail(i, fmt.Sprintf("bytes altered at read %d", k))
+				}
+			}
+		}
+		if int64(realLen) <= limit {
 			tags = append(tags, "short-body")
-			if len(seen) != len(rd.log) {
-				fail(i, "short body: handler saw a different number of reads than the underlying reader served")
-			} else {
-				for k := range seen {
-					if string(seen[k].data) != string(rd.log[k].data) || seen[k].err != rd.log[k].err {
+			if len(sv.seen) == len(sv.log) {
+				for k := range sv.seen {
+					if sv.seen[k].err != sv.log[k].err {
 						fail(i, fmt.Sprintf("short body altered at read %d", k))
 					}
 				}
@@ -195,7 +278,7 @@ func c14Run(ci any) Result {
 				tags = append(tags, "saw-413")
 			}
 		}
-		if int64(realLen) == c.Limit || int64(realLen) == c.Limit+1 {
+		if int64(realLen) == limit || int64(realLen) == limit+1 {
 			tags = append(tags, "boundary")
 		}
 		if prevRead && cum > 0 {
@@ -313,9 +396,33 @@ func c14Gen(r *rand.Rand, tier string) []any {
 			}
 		}
 		c := &c14Case{Limit: L, LimitStr: ls}
+		if r.Intn(4) == 0 {
+			// a second instance on one route: stricter, equal or more generous than the global one
+			c.Inner = []int64{L / 2, L - 1, L, L + 1, 2*L + 1, L + 7}[r.Intn(6)]
+			if c.Inner < 0 {
+				c.Inner = 0
+			}
+			c.InnerStr = fmt.Sprintf("%dB", c.Inner)
+		}
 		k := 1 + r.Intn(6)
 		for j := 0; j < k; j++ {
-			c.Reqs = append(c.Reqs, c14GenReq(r, L))
+			lim := L
+			rq := c14GenReq(r, lim)
+			if c.InnerStr != "" && r.Intn(2) == 0 {
+				if r.Intn(2) == 0 {
+					rq = c14GenReq(r, c.Inner)
+				}
+				rq.Inner = true
+			}
+			rq.Close = r.Intn(6) == 0
+			if r.Intn(8) == 0 {
+				n := c14GenReq(r, L)
+				n.Inner = c.InnerStr != "" && r.Intn(2) == 0
+				n.Close = r.Intn(4) == 0
+				rq.Nested = &n
+				rq.NestAfter = r.Intn(3)
+			}
+			c.Reqs = append(c.Reqs, rq)
 		}
 		out = append(out, c)
 	}
@@ -332,7 +439,40 @@ func c14Shrink(ci any) []any {
 			out = append(out, &d)
 		}
 	}
+	if c.InnerStr != "" {
+		d := *c
+		d.Inner, d.InnerStr = 0, ""
+		out = append(out, &d)
+	}
 	for i, rq := range c.Reqs {
+		if rq.Nested != nil || rq.Close || rq.Inner {
+			d := *c
+			d.Reqs = append([]c14Req(nil), c.Reqs...)
+			nr := rq
+			if rq.Nested != nil {
+				nr.Nested = nil
+			} else if rq.Close {
+				nr.Close = false
+			} else {
+				nr.Inner = false
+			}
+			d.Reqs[i] = nr
+			out = append(out, &d)
+		}
+		if rq.Nested != nil && (rq.Nested.Close || len(rq.Nested.Reads) > 1) {
+			d := *c
+			d.Reqs = append([]c14Req(nil), c.Reqs...)
+			nr := rq
+			nn := *rq.Nested
+			if nn.Close {
+				nn.Close = false
+			} else {
+				nn.Reads = nn.Reads[:len(nn.Reads)/2]
+			}
+			nr.Nested = &nn
+			d.Reqs[i] = nr
+			out = append(out, &d)
+		}
 		if len(rq.Chunks) > 1 {
 			// merge all chunks
 			var all []byte
@@ -361,11 +501,11 @@ func c14Shrink(ci any) []any {
 func init() {
 	register(&Prop{
 		ID:             "C14",
-		Rule:           "random limits (0, 1..64 bytes, 1K/2K) x sequences of 1-6 requests through ONE BodyLimit instance; body lengths {0, L-1, L, L+1, 10L, random}, random chunkings, EOF with or after the last chunk, declared length {exact, -1, half, around L}, random handler read sizes; non-trivial = a request that reads body bytes through a pooled reader that an earlier request of the same sequence already read bytes through; distinct = distinct model op lines",
+		Rule:           "random limits (0, 1..64 bytes, 1K/2K) x sequences of 1-6 requests through ONE BodyLimit instance; a quarter of the applications carry a second instance (stricter / equal / more generous) on one route; a sixth of the handlers close the body, an eighth serve a nested request on the same application between two of their own reads; body lengths {0, L-1, L, L+1, 10L, random}, random chunkings, EOF with or after the last chunk, declared length {exact, -1, half, around L}, random handler read sizes; non-trivial = a request that reads body bytes through a pooled reader that an earlier request of the same sequence already read bytes through; distinct = distinct model op lines",
 		New:            func() any { return &c14Case{} },
 		Gen:            c14Gen,
 		Run:            c14Run,
 		Shrink:         c14Shrink,
-		Correspondence: "C14.serveAll (lean/EchoModel/C14.lean) vs middleware.BodyLimit + limitedReader.Read",
+		Correspondence: "C14.serveAllN (lean/EchoModel/C14.lean; = serveAll without a route-level instance, serveAllN_none) vs middleware.BodyLimit + limitedReader.Read",
 	})
 }
